@@ -1007,6 +1007,12 @@ class Interp:
             return r if isinstance(op, ast.Eq) else not r
         if isinstance(a, (int, float)) and isinstance(b, (int, float)):
             return {ast.Lt: a < b, ast.LtE: a <= b, ast.Gt: a > b, ast.GtE: a >= b}[type(op)]
+        if isinstance(a, (PyNative, Fraction, tuple, str)) or isinstance(b, (PyNative, Fraction)):
+            import operator as _op
+            try:
+                return bool({ast.Lt: _op.lt, ast.LtE: _op.le, ast.Gt: _op.gt, ast.GtE: _op.ge}[type(op)](a, b))
+            except TypeError as ex:
+                raise Raised(f"TypeError: {ex}")
         raise AnalysisError("absint: unsupported comparison")
 
     def equal(self, a, b):
